@@ -462,6 +462,15 @@ def extra_configs(prop, tier, seed):
         for kind in ('IHS', 'AIWPSO'):
             for c in [c for c in pool_r if c['kind'] == kind][:2 if tier == 'quick' else 6]:
                 extra.append(dict(c, hook='narrow', adv=0.0, n_iter=8, n_agents=max(c['n_agents'], 4), hyper={}, objective='sphere'))
+    if prop == 'C15':
+        # the iteration budget declared on the space enlarged through its setter by a hook while the task runs (after one or
+        # more adaptation steps): the decaying values still never increase, the interval schedules stay inside their ranges
+        pool_i = runlevel.gen_configs('thorough', seed + 351)
+        for kind in ('WCA', 'FA', 'IHS', 'SA', 'AIWPSO'):
+            for j, c in enumerate([c for c in pool_i if c['kind'] == kind][:2 if tier == 'quick' else 6]):
+                n_it = [6, 4, 9][j % 3]
+                extra.append(dict(c, hook='reiter', adv=0.0, n_iter=n_it, n_agents=max(c['n_agents'], 4), hyper={}, objective='sphere',
+                                  reiter_at=[2, 1, 3][j % 3], reiter_n=[10 * n_it, n_it + 1, 3 * n_it][j % 3]))
     if prop == 'C03':
         # a hook that enlarges the population by one individual: every sweep evaluates the population as it is then
         pool_a = [c for c in runlevel.gen_configs('thorough', seed + 271) if c['space'] == 'search']
